@@ -4,3 +4,5 @@ Local Open Scope N_scope.
 Definition SOURCE_PRIORITY_MIN : N := 0.
 Definition SOURCE_PRIORITY_DEFAULT : N := 100.
 Definition SOURCE_PRIORITY_MAX : N := 200.
+Definition PRIORITY_MODE_INHERIT : N := 0.
+Definition PRIORITY_MODE_STATIC : N := 1.
